@@ -303,7 +303,30 @@ func ruleWS1(c *Ctx) {
 		}
 		ginfo := g.Info()
 		ok := false
-		for _, cc := range findAll[*ast.CaseClause](g.Body()) {
+		// the function and the private helpers its tail was moved into; a comma handled by an
+		// `if c == ','` arm instead of a case clause is the same thing
+		var clauses [][]ast.Stmt
+		var lists [][]ast.Expr
+		for _, h := range p.CalleeClosure(g, 2) {
+			if h != g && (h.Name == "jsontext.(*encoderState).reformatValue" || h.Name == "jsontext.(*encoderState).reformatObject" || h.Name == "jsontext.(*encoderState).reformatArray") {
+				continue
+			}
+			for _, cc := range findAll[*ast.CaseClause](h.Body()) {
+				clauses = append(clauses, cc.Body)
+				lists = append(lists, cc.List)
+			}
+			for _, ifs := range findAll[*ast.IfStmt](h.Body()) {
+				if be, isBe := ast.Unparen(ifs.Cond).(*ast.BinaryExpr); isBe && be.Op == token.EQL {
+					clauses = append(clauses, ifs.Body.List)
+					lists = append(lists, []ast.Expr{be.Y})
+				}
+			}
+		}
+		for ci, body := range clauses {
+			cc := struct {
+				List []ast.Expr
+				Body []ast.Stmt
+			}{lists[ci], body}
 			isComma := false
 			for _, e := range cc.List {
 				if v, isC := ConstI64(ginfo, e); isC && v == ',' {
